@@ -422,7 +422,7 @@ def plan(tier, verif_seed):
         for variant in ("doc", "underscore", "dash", "mixed", "mixed"):
             for unpack in (False, True):
                 units.append({"gen": "name", "name": name, "variant": variant, "unpack": unpack, "home": "env"})
-        for home in ("default", "env-tilde", "env-slash", "env-rel", "env-nested"):
+        for home in ("default", "env-tilde", "env-slash", "env-rel", "env-nested", "env-nohome"):
             units.append({"gen": "name", "name": name, "variant": "doc", "unpack": False, "home": home})
     units.extend({"gen": "all", "home": "env", "one_process": i % 2 == 0} for i in range(2 if tier == "quick" else 24))
     units.append({"gen": "all", "home": "default"})
